@@ -84,14 +84,14 @@ Print Assumptions C03_mntm_verdict.
    holds configurations of depth d followed by configurations of depth d+1; everything of depth
    < d has been dequeued" (Proofs/TMOrder.v, binv / bfs_order). *)
 Theorem C03_mntm_visits_reachable :
-  forall m fuel w ys o, valid_mntm m = true -> mntm_stepwise m fuel w = (ys, o) ->
+  forall m fuel w ys o, mntm_stepwise m fuel w = (ys, o) ->
   exists depths : list nat, length depths = length ys /\
     (forall i c d, nth_error ys i = Some c -> nth_error depths i = Some d ->
                    mreach m d (mt_start m w) (abs_mcfg c)) /\
     (forall i d d', nth_error depths i = Some d -> nth_error depths (S i) = Some d' -> d <= d') /\
     (o <> Err Fuel -> forall k z, mreach m k (mt_start m w) z ->
        (o = Err Reject \/ S k <= last depths 0) -> exists c, In c ys /\ mzcfg_eq (abs_mcfg c) z).
-Proof. intros m fuel w ys o Hv E. exact (mntm_visits_bfs_order m Hv w fuel ys o E). Qed.
+Proof. intros m fuel w ys o E. exact (mntm_visits_bfs_order m w fuel ys o E). Qed.
 Print Assumptions C03_mntm_visits_reachable.
 
 (* how a run ends: at most fuel configurations are dequeued; an accepting run returns a dequeued
@@ -110,7 +110,7 @@ Proof.
   split; [exact S2|]. split; [exact S1|]. split.
   - intros cl ->. destruct S3 as [Hin [Hf _]]. split; assumption.
   - intros ->. intros k z Hr. split.
-    + intro Hf. apply (S3 k z Hr). split; [exact Hf|]. apply (valid_final_no_delta m Hv). exact Hf.
+    + intro Hf. apply (S3 k z Hr). split; [exact Hf|]. left. apply (valid_final_no_delta m Hv). exact Hf.
     + exact (mntm_reject_visits_all m w fuel ys E k z Hr).
 Qed.
 Print Assumptions C03_mntm_run_ends.
